@@ -432,6 +432,34 @@ def _make_fields_iterator(
     # If that didn't work, look for `__slots__`:
     #   every class of the hierarchy declares its own, a lone string is one name.
     slotted = from_slots = False
+    # (A parameter of the constructor which the instance answers to - a property over
+    #   private state - is a field of such a class as well; one that is no attribute is not.)
+    params: list[str] = []
+    if not public_attribs and not dataclasses.is_dataclass(tp):
+        params = [
+            p.name
+            for p in inspection.safe_get_params(tp).values()
+            if not p.name.startswith("_")
+            and p.kind not in (p.VAR_POSITIONAL, p.VAR_KEYWORD)
+        ]
+
+    def _withparams(
+        inner: t.Callable[[t.Any], t.Iterator[tuple[str, t.Any]]],
+    ) -> t.Callable[[t.Any], t.Iterator[tuple[str, t.Any]]]:
+        if not params:
+            return inner
+
+        def _iterparams(val: t.Any) -> t.Iterator[tuple[str, t.Any]]:
+            seen = set()
+            for k, v in inner(val):
+                seen.add(k)
+                yield k, v
+            for p in params:
+                if p not in seen and hasattr(val, p):
+                    yield p, getattr(val, p)
+
+        return _iterparams
+
     if not public_attribs:
         declared = [
             vars(base)["__slots__"]
@@ -448,7 +476,12 @@ def _make_fields_iterator(
     if public_attribs or slotted:
 
         def _iterfields(val: t.Any) -> t.Iterator[tuple[str, t.Any]]:
-            return ((a, getattr(val, a)) for a in public_attribs)
+            # (A declared slot need not be assigned.)
+            return (
+                (a, getattr(val, a))
+                for a in public_attribs
+                if not from_slots or hasattr(val, a)
+            )
 
         # (Where only part of the hierarchy declares `__slots__`, the instance `__dict__` holds the rest.)
         if from_slots and tp.__dictoffset__:
@@ -463,15 +496,15 @@ def _make_fields_iterator(
                     ),
                 )
 
-            return _iterboth
+            return _withparams(_iterboth)
 
-        return _iterfields
+        return _withparams(_iterfields)
 
     # Finally, if all else fails, just use `vars` on the instance.
     def _itervars(val: t.Any) -> t.Iterator[tuple[str, t.Any]]:
         return ((k, v) for k, v in vars(val).items() if not k.startswith("_"))
 
-    return _itervars
+    return _withparams(_itervars)
 
 
 def load(val: _T) -> PythonValueT | _T:
